@@ -244,6 +244,7 @@ func describe(v ssa.Value) string {
 // Tabled exceptions of R-PANIC: one symbol each.
 var panicExceptions = map[string]string{
 	"(path/exec.kvBaseObject).OffsetOf": "the distance between two addresses of one process cannot exceed 2^63 on any supported platform",
+	"(*path/ast.RegexNode).Regexp":      "the pattern and flags were validated with regexp/syntax when the node was built (ast.NewRegex); R-REGEXFLAGS checks that the validator's flags and the compiler's inline flags agree for all 32 flag sets",
 }
 
 // dischargeSite tries the local discharges (a)/(a') for a panic site.
@@ -376,6 +377,28 @@ func rulePanic(name, doc string, rootsOf func(p *Prog) []*ssa.Function, wantSent
 					if why, ok := panicExceptions[fnName(fn)]; ok {
 						out.excepted(key, site, fnName(fn), why)
 						continue
+					}
+					if fnPkgPath(fn) == pkgExec {
+						// judged per call context by the abstract interpreter (E2)
+						if e, err := p.exhEngine(); err == nil {
+							if ctxs := e.feasibleContexts(s.Instr.Block()); len(ctxs) == 0 {
+								out.ok(key, site, fnName(fn), fmt.Sprintf("infeasible in all %d call contexts of the function (node shapes from the grammar, documented item types)", len(e.contexts(fn, e.depthCap))))
+								continue
+							} else {
+								var w []string
+								for i, c := range ctxs {
+									if i < 3 {
+										w = append(w, e.describeCtx(c, s.Instr.Block()))
+									}
+								}
+								if ok, why := p.dischargeSite(s); ok {
+									out.ok(key, site, fnName(fn), why)
+									continue
+								}
+								out.viol(key, site, fnName(fn), "reachable "+s.Kind+": a document or path can crash the caller instead of yielding an error", append(w, cut.path(p, fn)...)...)
+								continue
+							}
+						}
 					}
 					if ok, why := p.dischargeSite(s); ok {
 						out.ok(key, site, fnName(fn), why)
